@@ -848,7 +848,83 @@ def _eof_polarity(e, pol):
     return False
 
 
+# --------------------------------------------------------------------------- R6
+
+def _is_projection(e, var, consts):
+    """e selects / re-wraps components of `var` without computing anything from them."""
+    if isinstance(e, ast.Starred):
+        return _is_projection(e.value, var, consts)
+    if isinstance(e, ast.Name):
+        return e.id == var
+    if isinstance(e, ast.Call):
+        if isinstance(e.func, ast.Attribute) and e.func.attr in ("data", "bytes") and not e.args and not e.keywords:
+            return _is_projection(e.func.value, var, consts)
+        if ap(e.func) in ("tuple", "list", "bytes") and len(e.args) == 1 and not e.keywords:
+            return _is_projection(e.args[0], var, consts)
+        return False
+    if isinstance(e, ast.Subscript):
+        def plain(b):
+            return b is None or isinstance(b, ast.Constant) or (isinstance(b, ast.Name) and b.id in consts) or \
+                (isinstance(b, ast.UnaryOp) and isinstance(b.operand, ast.Constant))
+        sl = e.slice
+        ok = (isinstance(sl, ast.Slice) and plain(sl.lower) and plain(sl.upper) and plain(sl.step)) or plain(sl)
+        return ok and _is_projection(e.value, var, consts)
+    return False
+
+
+def r6(ctx):
+    repo = ctx.repo
+    ctx.rule("C02.R6", "numeric packers are pure projections: what a SPECS factory's packer hands to struct.pack is the "
+                       "value (or a selection of its components), never something computed from it - the unpacker is a "
+                       "plain constructor, so any arithmetic on the pack side changes a value that came off the wire")
+    n = 0
+    for fname in ("_make_struct_spec", "_make_tuplecoord_spec"):
+        fac = repo.fn(fname, PACK)
+        consts = {a.arg for a in fac.node.args.args}
+        packers = [d for d in walk(fac.node, into_defs=True) if isinstance(d, (ast.FunctionDef, ast.Lambda)) and d is not fac.node
+                   and any(call_attr(c) == "pack" for c in calls(d, into_defs=True))]
+        for d in packers:
+            params = [a.arg for a in d.args.args]
+            if len(params) != 1:
+                raise AnalysisError(f"C02.R6: {fname}: packer with parameters {params}")
+            var = params[0]
+            n += 1
+            name = getattr(d, "name", "lambda")
+            where = ctx.w(fac, d)
+            body = d.body if isinstance(d, ast.FunctionDef) else [ast.Return(value=d.body)]
+            # names that only ever hold the value or a selection of its components (greatest fixpoint)
+            assigns = {}
+            for st in [x for b in body for x in walk(b)]:
+                if isinstance(st, ast.Assign):
+                    for t in st.targets:
+                        assigns.setdefault(ap(t) or norm(t), []).append(st.value)
+                elif isinstance(st, (ast.AugAssign, ast.AnnAssign)) and st.value is not None:
+                    assigns.setdefault(ap(st.target) or norm(st.target), []).append(None)
+                elif isinstance(st, (ast.For, ast.comprehension)):
+                    for t in ast.walk(st.target):
+                        if isinstance(t, ast.Name):
+                            assigns.setdefault(t.id, []).append(None)
+            pure = set(assigns) | {var}
+            changed = True
+            while changed:
+                changed = False
+                for nm in list(pure):
+                    if any(v is None or not any(_is_projection(v, q, consts) for q in pure) for v in assigns.get(nm, [])):
+                        pure.discard(nm)
+                        changed = True
+            for c in [c for b in body for c in calls(b)]:
+                if call_attr(c) == "pack":
+                    ok = len(c.args) >= 1 and not c.keywords and all(any(_is_projection(a, q, consts) for q in pure) for a in c.args)
+                    bad = sorted(nm for nm in assigns if nm not in pure)
+                    ctx.ob("C02.R6", f"{fname}.{name}: `{norm(c)}` packs the value itself", ok, where,
+                           f"pack() is given something computed from the value (recomputed locals: {bad}) - normalised / "
+                           f"scaled / sign-flipped: a value parsed from the wire no longer packs to the bytes it came from")
+        # bound method `struct_obj.pack` returned directly is a projection by construction
+    ctx.floor("C02.R6", "packer closures in the SPECS factories", n, 1)
+
+
 def run(ctx):
+    r6(ctx)
     r1(ctx)
     r2(ctx)
     r3(ctx)
